@@ -20,16 +20,16 @@ EXTRA = ["utaura", "contract3", "contract4", "contract40", "uatom", "aaa", "aaaa
 
 
 class RegWorld:
-    def __init__(self, srv, rng, n_tokens=3, n_families=None):
+    def __init__(self, srv, rng, n_tokens=3, n_families=None, all_extras=False):
         self.srv, self.rng = srv, rng
         fams = list(DENOM_FAMILIES)
         rng.shuffle(fams)
         fams = fams[:n_families or rng.choice([1, 2, 2, 3])]
-        denoms = [d for f in fams for d in f] + rng.sample(EXTRA, rng.randrange(3, 9))
+        denoms = [d for f in fams for d in f] + (list(EXTRA) if all_extras else rng.sample(EXTRA, rng.randrange(3, 9)))
         rng.shuffle(denoms)
         self.denoms = denoms
         # some denoms are never registered with the factory
-        self.unregistered = set(rng.sample(denoms, rng.randrange(1, 3)))
+        self.unregistered = set(rng.sample(denoms, 1 if all_extras else rng.randrange(1, 3)))
         srv.reset_log()
         r = srv.send({"op": "new", "balances": [["owner", d, "1000000"] for d in denoms]})
         self.codes = r["v"]
@@ -38,7 +38,7 @@ class RegWorld:
         self.true_dec = {}
         for i in range(n_tokens):
             dec = rng.choice([0, 6, 8, 18])
-            t = self._inst("cw20", {"name": "token%d" % i, "symbol": "TK" + "ABCDEFG"[i], "decimals": dec,
+            t = self._inst("cw20", {"name": "token%d" % i, "symbol": "TK" + "ABCDEFGHIJ"[i], "decimals": dec,
                                     "initial_balances": [{"address": "owner", "amount": "1000000"}], "mint": None})
             self.tokens.append(t)
             self.true_dec[("t", t)] = dec
